@@ -202,6 +202,61 @@ def rule_whitenscale(ctx):
     return res.finish(1)
 
 
+def rule_ratiosquares(ctx):
+    """explained_variance_ratio normalises *variances*: squared singular values.  The singular values themselves, normalised,
+    are also positive, sorted and sum to one - and equal to the right answer exactly when all singular values are equal."""
+    res = RuleResult("R-C18-ratiosquares", "the numerator of explained_variance_ratio is a squared singular value")
+    F = ctx.facts()
+    fns = [f for f in F.all_fns() if f["d"]["krate"] == "linfa_reduction" and (f["d"].get("self_adt") or "").endswith("Pca") and f["d"]["name"] == "explained_variance_ratio"]
+    if not fns:
+        res.missing_anchor("Pca::explained_variance_ratio")
+    for fn in fns:
+        c = fn["crate"]
+        r = Render(c)
+        key = fn_key(fn)
+        res.instance(key)
+        inits = {}
+        for y in walk(fn["body"]):
+            if y.get("k") == "LetStmt" and y.get("init") is not None and y["pat"].get("k") == "Bind":
+                inits[y["pat"]["local"]] = y["init"]
+        tail = fn["body"]
+        while strip(tail).get("k") == "Block" and strip(tail).get("e") is not None:
+            tail = strip(tail)["e"]
+        tail = peel_refs(tail)
+        if tail.get("k") != "Binary" or tail["op"] != "/":
+            res.undecided("%s : form" % key, "the result is not a quotient (fail closed): `%s`" % r.e(tail)[:40], fn_loc(fn))
+            continue
+
+        def squared(e, depth=0):
+            for y in walk(e):
+                if y.get("k") == "Binary" and y["op"] == "*":
+                    a, b = peel_refs(y["l"]), peel_refs(y["r"])
+                    if r.e(a) == r.e(b):
+                        return True
+                if y.get("k") == "MethodCall" and y["name"] in ("powi", "powf", "pow") and y["args"] and str(peel_refs(y["args"][0]).get("v", "")).replace("_", "").replace("i32", "").replace("f64", "") in ("2", "2.0", "2."):
+                    return True
+                if y.get("k") == "MethodCall" and y["name"] in ("explained_variance", "squared_singular_values"):
+                    return True
+                if y.get("k") == "Path" and y.get("local") in inits and depth < 4 and squared(inits[y["local"]], depth + 1):
+                    return True
+            return False
+
+        def mentions_sigma(e, depth=0):
+            for y in walk(e):
+                if (y.get("k") == "Field" and y["name"] == "sigma") or (y.get("k") == "MethodCall" and y["name"] == "singular_values"):
+                    return True
+                if y.get("k") == "Path" and y.get("local") in inits and depth < 4 and mentions_sigma(inits[y["local"]], depth + 1):
+                    return True
+            return False
+        if squared(tail["l"]):
+            res.ok()
+        elif mentions_sigma(tail["l"]):
+            res.violate("%s : ratio-of-unsquared-singular-values" % key, "`%s`: the singular values are normalised without being squared - a ratio of standard deviations, not of variances; it differs from the explained variance ratio as soon as the singular values differ" % r.e(tail)[:50], fn_loc(fn, tail.get("ln")))
+        else:
+            res.undecided("%s : numerator" % key, "`%s` (fail closed)" % r.e(tail["l"])[:40], fn_loc(fn, tail.get("ln")))
+    return res.finish(1)
+
+
 def rule_centreonce(ctx):
     """predict / predict_inplace subtract the stored mean before projecting.  A caller inside the type that has subtracted
     the mean itself and then delegates to them centres twice: scores shifted by -mean . components^T."""
@@ -449,7 +504,9 @@ def rule_rowlocal(ctx):
 def rules(tier):
     from . import carry, c04
     from . import precision
-    return [rule_whitenscale, rule_centreonce, rule_guard, rule_n, rule_project, rule_memorder, rule_overwrite, rule_stale, rule_ratio_paths, c01.rule_width,
+    from . import intnarrow
+    return [intnarrow.make_rule("R-C18-narrow", lambda f: f["d"]["krate"] == "linfa_reduction" and "pca" in fn_file(f), "linfa-reduction pca"),
+            rule_ratiosquares, rule_whitenscale, rule_centreonce, rule_guard, rule_n, rule_project, rule_memorder, rule_overwrite, rule_stale, rule_ratio_paths, c01.rule_width,
             carry.make_clone_rule("R-C18-clone", {"linfa_reduction"}, 4), carry.make_setter_rule("R-C18-override", {"linfa_reduction"}, 2), rule_rowlocal,
             precision.make_rule("R-C18-precision", lambda f: f["d"]["krate"] == "linfa_reduction" and "pca" in fn_file(f), 9, "linfa-reduction pca"),
             carry.make_accessor_rule("R-C18-accessor", {"linfa_reduction"}, 4), carry.make_ctor_rule("R-C18-ctor", {"linfa_reduction"}, 2)]
